@@ -120,6 +120,7 @@ type tokSpec struct {
 	Nonce     string
 	Exp       int64 // seconds; 0 = absent
 	Extra     string
+	Claims    map[string]any // further / overriding claims, of any JSON type (azp, aud, exp, iat, ... of unexpected types)
 }
 
 func (k *keyring) mint(s tokSpec) (string, tokDesc) {
@@ -144,6 +145,9 @@ func (k *keyring) mint(s tokSpec) (string, tokDesc) {
 	}
 	if s.Extra != "" {
 		claims["x"] = s.Extra
+	}
+	for k, v := range s.Claims {
+		claims[k] = v
 	}
 	payload, _ := json.Marshal(claims)
 	hdr := func(alg, kid string) string {
@@ -203,10 +207,24 @@ func (k *keyring) mint(s tokSpec) (string, tokDesc) {
 		tok = "not-a-jwt-" + s.Extra
 	}
 	// what the JWT library makes of it (jwx is modelled, not verified)
-	_, err := jwt.Parse([]byte(tok), jwt.WithValidate(false), jwt.WithVerify(false))
+	parsed, err := jwt.Parse([]byte(tok), jwt.WithValidate(false), jwt.WithVerify(false))
 	d.Parses = err == nil
 	if !d.Parses {
 		d = tokDesc{NonceKind: "absent", How: s.Sig}
+	} else {
+		// the descriptor says what the library reports (audience list, nonce claim and its type, expiry)
+		d.Aud = parsed.Audience()
+		d.Exp = 0
+		if !parsed.Expiration().IsZero() {
+			d.Exp = parsed.Expiration().UnixNano()
+		}
+		if n, ok := parsed.Get("nonce"); !ok {
+			d.NonceKind, d.Nonce = "absent", ""
+		} else if ns, isStr := n.(string); isStr {
+			d.NonceKind, d.Nonce = "str", ns
+		} else {
+			d.NonceKind, d.Nonce = "other", ""
+		}
 	}
 	d.SigOK = k.independentVerify(tok)
 	return tok, d
@@ -441,6 +459,7 @@ func (j *spyJWKS) Get(ctx context.Context, cfg *oidcv1.OIDCConfig) (jwk.Set, err
 type genOut struct{ Sid, Nonce, State, Verifier, Challenge string }
 
 type spyGen struct {
+	base int // offset of the id counter (distinct per concurrent thread)
 	rec  *recorder
 	r    *mrand.Rand
 	cur  genOut
@@ -461,8 +480,8 @@ func (g *spyGen) alnum(n int) string {
 func (g *spyGen) fresh() {
 	g.n++
 	v := g.alnum(43)
-	g.cur = genOut{Sid: fmt.Sprintf("S%d", g.n) + g.alnum(12), Nonce: fmt.Sprintf("N%d", g.n) + g.alnum(8),
-		State: fmt.Sprintf("T%d", g.n) + g.alnum(8), Verifier: v, Challenge: oauth2.S256ChallengeFromVerifier(v)}
+	g.cur = genOut{Sid: fmt.Sprintf("S%d", g.base+g.n) + g.alnum(12), Nonce: fmt.Sprintf("N%d", g.base+g.n) + g.alnum(8),
+		State: fmt.Sprintf("T%d", g.base+g.n) + g.alnum(8), Verifier: v, Challenge: oauth2.S256ChallengeFromVerifier(v)}
 	g.used = 0
 	g.All = append(g.All, g.cur)
 	c := g.cur
@@ -497,6 +516,10 @@ type idpServer struct {
 	next  func(form url.Values, auth string) idpAnswer
 	gate  func()
 	Calls int
+	// route: for concurrent runs, a token endpoint path /t<N>/token belongs to thread N, which has its own
+	// recorder and gate; returns nil when the path carries no thread tag
+	route func(path string) (rec *recorder, gate func(), clean string)
+	discovery, jwksDoc string
 }
 
 // what encoding/json makes of a token response (same member names as the service expects;
@@ -527,10 +550,26 @@ func galIdpAnswer(a idpAnswer) (string, string) {
 func newIdpServer(rec *recorder) *idpServer {
 	s := &idpServer{rec: rec}
 	s.srv = httptest.NewServer(http.HandlerFunc(func(w http.ResponseWriter, r *http.Request) {
+		switch r.URL.Path {
+		case "/.well-known/openid-configuration":
+			w.Header().Set("Content-Type", "application/json")
+			io.WriteString(w, s.discovery)
+			return
+		case "/jwks":
+			w.Header().Set("Content-Type", "application/json")
+			io.WriteString(w, s.jwksDoc)
+			return
+		}
 		body, _ := io.ReadAll(r.Body)
 		form, _ := url.ParseQuery(string(body))
-		if s.gate != nil {
-			s.gate()
+		rec, gate, uri := s.rec, s.gate, r.URL.RequestURI()
+		if s.route != nil {
+			if r2, g2, clean := s.route(r.URL.Path); r2 != nil {
+				rec, gate, uri = r2, g2, clean
+			}
+		}
+		if gate != nil {
+			gate()
 		}
 		s.mu.Lock()
 		s.Calls++
@@ -541,8 +580,8 @@ func newIdpServer(rec *recorder) *idpServer {
 			ans = next(form, r.Header.Get("Authorization"))
 		}
 		ga, cls := galIdpAnswer(ans)
-		s.rec.add(effRec{Kind: "Idp", Form: form, Idp: cls, OK: cls == "body",
-			Eff: "(EIdp " + gal.Rec("q_uri", gal.S("http://"+r.Host+r.URL.RequestURI()), "q_body", gal.S(string(body)),
+		rec.add(effRec{Kind: "Idp", Form: form, Idp: cls, OK: cls == "body",
+			Eff: "(EIdp " + gal.Rec("q_uri", gal.S("http://"+r.Host+uri), "q_body", gal.S(string(body)),
 				"q_auth", gal.S(r.Header.Get("Authorization")), "q_ctype", gal.S(r.Header.Get("Content-Type"))) + ")",
 			Ans: ga})
 		w.Header().Set("Connection", "close")
@@ -582,6 +621,14 @@ type World struct {
 	tokdb     map[string]tokDesc
 	tlsPool   internal.TLSConfigPool
 	clock     *oidc.Clock
+	cancel    context.CancelFunc
+	rhook     *cmdFaultHook
+	// NextCmdFaults: Redis commands (lower-case names) to fail once during the next request
+	NextCmdFaults []string
+	// late observation: the previous response object is looked at again after the next check was built
+	lastResp *envoy.CheckResponse
+	lastGal  string
+	LateMutations []string
 }
 
 type cfgOpts struct {
@@ -590,6 +637,7 @@ type cfgOpts struct {
 	Logout      bool
 	Scopes      []string
 	AuthQuery   string // own query of the authorization endpoint ("" = none)
+	Discovery   bool   // endpoints, key location and end-session URI come from the provider's discovery document
 	IDHeader    string
 	IDPreamble  string
 	ATHeader    string
@@ -610,6 +658,9 @@ func newWorld(seed int64, o cfgOpts) *World {
 	if o.AuthQuery != "" {
 		authURI += "?" + o.AuthQuery
 	}
+	w.idp.discovery = fmt.Sprintf(`{"issuer":%q,"authorization_endpoint":%q,"token_endpoint":%q,"jwks_uri":%q,"end_session_endpoint":%q}`,
+		w.idp.srv.URL, authURI, w.idp.srv.URL+"/token", w.idp.srv.URL+"/jwks", w.idp.srv.URL+"/endsession?x=1")
+	w.idp.jwksDoc = w.keys.jwksDoc
 	w.Cfg = &oidcv1.OIDCConfig{
 		AuthorizationUri: authURI, TokenUri: w.idp.srv.URL + "/token", CallbackUri: o.CallbackURI,
 		JwksConfig: &oidcv1.OIDCConfig_Jwks{Jwks: w.keys.jwksDoc}, ClientId: o.ClientID,
@@ -624,6 +675,14 @@ func newWorld(seed int64, o cfgOpts) *World {
 	if o.Logout {
 		w.Cfg.Logout = &oidcv1.LogoutConfig{Path: "/logout", RedirectUri: w.idp.srv.URL + "/endsession?x=1"}
 	}
+	if o.Discovery {
+		// everything the discovery document provides is left unset
+		w.Cfg.ConfigurationUri = w.idp.srv.URL + "/.well-known/openid-configuration"
+		w.Cfg.AuthorizationUri, w.Cfg.TokenUri, w.Cfg.JwksConfig = "", "", nil
+		if o.Logout {
+			w.Cfg.Logout.RedirectUri = ""
+		}
+	}
 	w.Abs, w.Idle = time.Duration(o.Abs)*time.Second, time.Duration(o.Idle)*time.Second
 	var inner oidc.SessionStore
 	if o.Store == "redis" {
@@ -632,18 +691,27 @@ func newWorld(seed int64, o cfgOpts) *World {
 		must(err)
 		w.mr.SetTime(w.now)
 		w.rcli = redis.NewClient(&redis.Options{Addr: w.mr.Addr()})
+		w.rhook = &cmdFaultHook{}
+		w.rcli.AddHook(w.rhook)
 		inner, err = oidc.NewRedisStore(w.clock, w.rcli, w.Abs, w.Idle)
 		must(err)
 	} else {
 		inner = oidc.NewMemoryStore(w.clock, w.Abs, w.Idle)
 	}
 	w.store = &spyStore{inner: inner, rec: w.rec, faults: map[int]faultKind{}}
-	w.jwks = &spyJWKS{rec: w.rec, inner: oidc.NewJWKSProvider(&configv1.Config{}, w.tlsPool)}
+	prov := oidc.NewJWKSProvider(&configv1.Config{}, w.tlsPool)
+	var ctx context.Context
+	ctx, w.cancel = context.WithCancel(context.Background())
+	go func() { _ = prov.ServeContext(ctx) }() // the fetched-keys path waits for the provider's service to run
+	w.jwks = &spyJWKS{rec: w.rec, inner: prov}
 	w.gen = &spyGen{rec: w.rec, r: mrand.New(mrand.NewSource(seed))}
 	return w
 }
 
 func (w *World) Close() {
+	if w.cancel != nil {
+		w.cancel()
+	}
 	w.idp.srv.Close()
 	if w.rcli != nil {
 		w.rcli.Close()
@@ -667,6 +735,30 @@ func (w *World) mint(s tokSpec) string {
 	return tok
 }
 
+// cmdFaultHook fails the next Redis command of a given name (command-level fault: the server is not reached).
+type cmdFaultHook struct {
+	mu   sync.Mutex
+	fail map[string]bool
+}
+
+func (h *cmdFaultHook) DialHook(next redis.DialHook) redis.DialHook { return next }
+func (h *cmdFaultHook) ProcessHook(next redis.ProcessHook) redis.ProcessHook {
+	return func(ctx context.Context, cmd redis.Cmder) error {
+		h.mu.Lock()
+		f := h.fail[strings.ToLower(cmd.Name())]
+		if f {
+			delete(h.fail, strings.ToLower(cmd.Name()))
+		}
+		h.mu.Unlock()
+		if f {
+			cmd.SetErr(errInjected)
+			return errInjected
+		}
+		return next(ctx, cmd)
+	}
+}
+func (h *cmdFaultHook) ProcessPipelineHook(next redis.ProcessPipelineHook) redis.ProcessPipelineHook { return next }
+
 // ---------------------------------------------------------------- one request
 
 type reqSpec struct {
@@ -689,6 +781,7 @@ type stepRec struct {
 	Req    reqSpec  `json:"request"`
 	Faults map[int]string `json:"faults,omitempty"`
 	JwksFail bool   `json:"jwks_fail,omitempty"`
+	CmdFaults []string `json:"redis_command_faults,omitempty"`
 	Trace  []effRec `json:"trace"`
 	Resp   obsResp  `json:"response"`
 }
@@ -760,7 +853,16 @@ func (w *World) Do(r reqSpec, faults map[int]faultKind, jwksFail bool) stepRec {
 		w.store.faults = map[int]faultKind{}
 	}
 	w.jwks.fail = jwksFail
-	st := stepRec{Now: w.now.UnixNano(), Req: r, JwksFail: jwksFail}
+	st := stepRec{Now: w.now.UnixNano(), Req: r, JwksFail: jwksFail, CmdFaults: w.NextCmdFaults}
+	if w.rhook != nil {
+		w.rhook.mu.Lock()
+		w.rhook.fail = map[string]bool{}
+		for _, c := range w.NextCmdFaults {
+			w.rhook.fail[c] = true
+		}
+		w.rhook.mu.Unlock()
+	}
+	w.NextCmdFaults = nil
 	if len(faults) > 0 {
 		st.Faults = map[int]string{}
 		for k, v := range faults {
@@ -781,6 +883,16 @@ func (w *World) Do(r reqSpec, faults map[int]faultKind, jwksFail bool) stepRec {
 	}()
 	st.Resp = observe(resp, err, pv)
 	st.Trace = append([]effRec(nil), w.rec.trace...)
+	// an answer already handed back must not change when later checks are processed (gRPC serialises it later)
+	if w.lastResp != nil {
+		if again := observe(w.lastResp, nil, nil); again.Gal != w.lastGal {
+			w.LateMutations = append(w.LateMutations, fmt.Sprintf("was %.300s ; became %.300s", w.lastGal, again.Gal))
+		}
+	}
+	w.lastResp, w.lastGal = nil, ""
+	if err == nil && pv == nil {
+		w.lastResp, w.lastGal = resp, st.Resp.Gal
+	}
 	return st
 }
 
